@@ -583,6 +583,11 @@ func TestVerifC10(t *testing.T) {
 	// ---- answer mode ----
 	remoteSeqs := vkit.AllSequences(len(c10RemotePool), 1, c.Pick(2, 3))
 	localSubsets := c10Subsets(len(c10VideoPool), c.Pick(1, 2))[1:]
+	if c.Quick() {
+		// quick: single registrations plus the pairs primary + its RTX / + an unattached RTX / + a malformed RTX
+		// (an answer of a transceiver created from the offer carries RTX only when the engine has the pair)
+		localSubsets = append(localSubsets, []int{0, 1}, []int{3, 4}, []int{0, 2}, []int{0, 5})
+	}
 	localExt := [][]int{{}, {0, 1}, {0, 1, 2, 3, 4}}
 	if !c.Quick() {
 		localExt = append(localExt, []int{0}, []int{1, 3}, []int{0, 2, 4})
